@@ -255,6 +255,8 @@ pub enum KeyCase {
     Blob { fields: Vec<BlobField> },
     /// Arbitrary bytes of a given length.
     Raw { len: u8, fill: u64 },
+    /// Literal bytes (from the byte-level fuzzer; not produced by the strategy).
+    Bytes(Vec<u8>),
 }
 
 #[derive(Debug, Clone, Serialize, Deserialize)]
@@ -411,7 +413,14 @@ pub fn run(ctx: &mut Ctx) {
     ];
     let t = ctx.tier;
 
-    ctx.campaign("bytes", CampaignCfg::new(t.pick(120_000, 4_000_000)).shards(t.pick(4, 16)), mh_strategy, |c: &MhCase| {
+    ctx.campaign("bytes", CampaignCfg::new(t.pick(120_000, 4_000_000)).shards(t.pick(4, 16)), mh_strategy, run_mh);
+    ctx.campaign("text", CampaignCfg::new(t.pick(60_000, 2_000_000)).shards(t.pick(4, 16)), text_strategy, run_text);
+    ctx.campaign("keys", CampaignCfg::new(t.pick(30_000, 1_000_000)).shards(t.pick(4, 16)), key_strategy, run_key);
+    ctx.campaign("multiaddr", CampaignCfg::new(t.pick(20_000, 500_000)).shards(t.pick(2, 16)), addr_strategy, run_addr);
+}
+
+fn run_mh(c: &MhCase) -> CaseResult {
+    {
         let input = mh_bytes(c);
         let accepted = check_from_bytes(&input)?;
         let near = matches!(c, MhCase::Structured { code, .. } if *code == 0 || *code == 0x12);
@@ -420,9 +429,11 @@ pub fn run(ctx: &mut Ctx) {
             .class_if(accepted, "accepted")
             .class_if(!accepted && near, "near-valid-rejected")
             .class_if(!accepted && !near, "far-rejected"))
-    });
+    }
+}
 
-    ctx.campaign("text", CampaignCfg::new(t.pick(60_000, 2_000_000)).shards(t.pick(4, 16)), text_strategy, |c: &TextCase| {
+fn run_text(c: &TextCase) -> CaseResult {
+    {
         let s = text_of(c);
         let ours = PeerId::from_str(&s);
         let theirs = RefPeerId::from_str(&s);
@@ -444,9 +455,11 @@ pub fn run(ctx: &mut Ctx) {
             .nt(accepted || near)
             .class_if(accepted, "accepted")
             .class_if(!accepted, "rejected"))
-    });
+    }
+}
 
-    ctx.campaign("keys", CampaignCfg::new(t.pick(30_000, 1_000_000)).shards(t.pick(4, 16)), key_strategy, |c: &KeyCase| {
+fn run_key(c: &KeyCase) -> CaseResult {
+    {
         let mut ok = CaseOk::nontrivial();
         let blob = match c {
             KeyCase::Ed25519 { seed } => {
@@ -474,6 +487,10 @@ pub fn run(ctx: &mut Ctx) {
                 ok = ok.class("raw");
                 fill_bytes(*fill, *len as usize)
             }
+            KeyCase::Bytes(b) => {
+                ok = ok.class("raw");
+                b.clone()
+            }
         };
         let ours = PeerId::from_public_key_protobuf(&blob);
         let expect = rule_peer_id_bytes(&blob);
@@ -495,9 +512,55 @@ pub fn run(ctx: &mut Ctx) {
             .class_if(blob.len() <= 42, "inline")
             .class_if(blob.len() > 42, "hashed")
             .class_if(blob.len() == 42 || blob.len() == 43, "at-boundary"))
-    });
+    }
+}
 
-    ctx.campaign("multiaddr", CampaignCfg::new(t.pick(20_000, 500_000)).shards(t.pick(2, 16)), addr_strategy, run_addr);
+/// Starting corpus for libFuzzer: valid peer ids as bytes and text, and valid key blobs.
+pub fn fuzz_seed_corpus() -> Vec<Vec<u8>> {
+    let mut out = Vec::new();
+    for seed in 0..6u64 {
+        let kp = crate::common::keypair_from_seed(seed + 100);
+        let public = litep2p::crypto::PublicKey::Ed25519(kp.public());
+        let id = PeerId::from_public_key(&public);
+        let mut a = vec![0u8];
+        a.extend(id.to_bytes());
+        out.push(a);
+        let mut b = vec![1u8];
+        b.extend(id.to_base58().into_bytes());
+        out.push(b);
+        let mut c = vec![2u8];
+        c.extend(public.to_protobuf_encoding());
+        out.push(c);
+        // a sha2-256 id (hashed key) as bytes and text
+        let hashed = PeerId::from_public_key_protobuf(&fill_bytes(seed, 60));
+        let mut d = vec![0u8];
+        d.extend(hashed.to_bytes());
+        out.push(d);
+        let mut e = vec![1u8];
+        e.extend(hashed.to_base58().into_bytes());
+        out.push(e);
+    }
+    out
+}
+
+/// Byte-level entry for libFuzzer: byte 0 selects bytes / text / key blob, the rest is the literal input.
+pub fn fuzz_bytes(data: &[u8]) -> Option<crate::engine::FuzzOutcome> {
+    use crate::engine::{guarded, FuzzOutcome};
+    let (sel, rest) = data.split_first()?;
+    Some(match sel % 3 {
+        0 => {
+            let c = MhCase::Raw(rest.to_vec());
+            FuzzOutcome { sub: "bytes".into(), case: serde_json::to_value(&c).ok()?, result: guarded(|| run_mh(&c)) }
+        }
+        1 => {
+            let c = TextCase::Raw(String::from_utf8_lossy(rest).into_owned());
+            FuzzOutcome { sub: "text".into(), case: serde_json::to_value(&c).ok()?, result: guarded(|| run_text(&c)) }
+        }
+        _ => {
+            let c = KeyCase::Bytes(rest.to_vec());
+            FuzzOutcome { sub: "keys".into(), case: serde_json::to_value(&c).ok()?, result: guarded(|| run_key(&c)) }
+        }
+    })
 }
 
 /// Minimal non-human-readable serde format: a value is a single bytes or string token.
